@@ -41,9 +41,9 @@ def exhaustive_instances(thorough):
            ("x2a", C(P2, CN, g=1, i=1, t=4, atomic=True), 2),                 # two peers, atomic runs
            ("x2s", C(P2, CN, g=1, i=1, t=4, e=2), 1)]                        # two peers, stepwise (any scan order)
     if thorough:
-        out = [("x1", C(t=6, e=4, close=2), 1),
-               ("x1b", C(g=1, i=2, buf=2, close=2), 1),                      # interval longer than the grace period
-               ("x1c", C(g=3, i=2, buf=2, t=6, init=False), 1),              # ticks not aligned with grace; peers unknown at first
+        out = [("x1", C(t=6), 1),
+               ("x1b", C(g=1, i=2, buf=2, close=2), 1),                               # interval longer than the grace period
+               ("x1c", C(g=3, i=2, t=6, init=False), 1),                     # ticks not aligned with grace; peers unknown at first
                ("x2a", C(P2, CN, g=1, i=1, t=4, atomic=True), 1),
                ("x2s", C(P2, CN, g=1, i=1, t=4, e=3), 1)]
     return out
@@ -51,13 +51,13 @@ def exhaustive_instances(thorough):
 
 def replay_instances(thorough):
     out = [("r1", C(), None),
-           ("r2a", C(P2, CN, g=1, i=1, t=4, startby=0, atomic=True), None)]
+           ("r2a", C(P2, CN, g=1, i=1, t=4, close=0, startby=0, atomic=True), None)]
     if thorough:
-        out = [("r1", C(t=6, e=4, close=2), 150000),
-               ("r1c", C(g=3, i=2, buf=2, t=6, startby=0, init=False), None),
-               ("r1b", C(g=1, i=2, buf=2, close=2), None),
+        out = [("r1", C(close=2), None),
+               ("r1c", C(g=3, i=2, t=6, startby=0, init=False), None),
+               ("r1b", C(g=1, i=2, buf=2, t=4), None),
                ("r2a", C(P2, CN, g=1, i=1, t=4, startby=0, atomic=True), None),
-               ("r2b", C(P2, CN, g=1, i=1, buf=2, t=3, e=4, startby=0, atomic=True), 150000)]
+               ("r2b", C(P2, CN, g=1, i=1, buf=2, t=3, startby=0, atomic=True), None)]
     return out
 
 
